@@ -1,6 +1,6 @@
 """C13 - sizes, bounds, initialisers and value arguments must be compile-time computable."""
 from ..report import Check
-from ..rules import effects
+from ..rules import effects, descend
 
 
 def run(F, G, tier, seed):
@@ -23,6 +23,7 @@ def run(F, G, tier, seed):
     effects.run_ownlocals(chk, F, CG, fields=("depends",))
     effects.run_block_locals(chk, F, CG)
     effects.run_visitors(chk, F, visitors=("UTAP::CollectDependenciesVisitor",))
+    descend.run(chk, F, ["depends_on", "collect_possible_reads"], [])
     # checkType reaches array sizes and nested types
     rid3 = "R-CHECKTYPE"
     chk.rule(rid3, "checkType recurses: ARRAY checks its size type and element type, RECORD every field, and every "
@@ -31,10 +32,14 @@ def run(F, G, tier, seed):
     from ..rules.effects import switch_cases, _fn
     from ..facts import calls, short
     ct = _fn(F, "checkType")
-    for labels, stmts in switch_cases(ct):
-        body = {"k": "block", "s": stmts}
+    from ..inline import KindSlicer
+    tparam = ct["params"][0]["name"]
+    sl = KindSlicer(F, ct, subject=tparam, stop=("checkType", "checkExpression"))    # lambdas / helpers expanded
+    tkinds = ("ARRAY", "RECORD", "LABEL", "CONSTANT", "REF", "SYSTEM_META", "URGENT", "BROADCAST", "COMMITTED", "HYBRID")
+    for lb0 in tkinds:
+        body = sl.slice(lb0)
         rec = [short(c) for c in calls(body, "checkType")]
-        for lb in labels:
+        for lb in (lb0,):
             if lb in ("ARRAY",):
                 chk.ob(rid3, "checkType|ARRAY|size", any("size" in r for r in rec),
                        "checkType(ARRAY) does not check the size type", "%s:%s" % (ct["file"], ct["line"]))
